@@ -91,6 +91,16 @@ func assetTol(pre, post *Snap, denom string) *big.Rat {
 			}
 		}
 		mis := ratAbs(new(big.Rat).Sub(sum, decRat(as.TotalValidatorShares)))
+		// ... but only as much of it as rounding can explain: the F-C03 allowance of this history
+		allowance := new(big.Rat)
+		if curExec != nil && curExec.MaxShareTotal[denom] != nil {
+			allowance.Mul(curExec.MaxShareTotal[denom], big.NewRat(1, 1_000_000_000_000_000_000))
+			allowance.Add(allowance, big.NewRat(1, 1))
+			allowance.Mul(allowance, big.NewRat(int64(curExec.ShareOps[denom]), 1))
+		}
+		if mis.Cmp(allowance) > 0 {
+			mis = allowance
+		}
 		if mis.Sign() == 0 {
 			continue
 		}
